@@ -930,7 +930,8 @@ impl C16 {
                                 _ => false,
                             };
                             // (also when the whole filter is answered by the scalar index: no refine step, no row id)
-                            let no_refine = q.filt.is_none() || (k.use_index && tab.idx.is_some());
+                            // (and on a legacy table whose filter is pushed into LancePushdownScanExec: no row id either)
+                            let no_refine = q.filt.is_none() || (k.use_index && tab.idx.is_some()) || tab.legacy;
                             let key = if unprojected_order && no_refine && !k.row_id && !k.row_addr && e.msg.contains("TakeExec requires the input plan") {
                                 "order_by_unprojected_column_fails"
                             } else {
